@@ -8,6 +8,7 @@
          input  = a structured layout  g0 t1 g1 ... tn gn  as a flat event list:
                     gap items  -20 space | -21 tab | -22 CR LF | -23 LF | -24 c.. line comment ended by LF
                                | -26 c.. line comment ended by CR LF | -25 b.. block comment, b = c | -1 LF | -2 CR LF | -3 open | -4 close
+                               | -27 lone CR | -28 c.. line comment "--" c "--"
                     -10 end of gap;  -11 c separator item;  -12 c.. text item
          output = 0 :: lex_safeb :: |text| :: render ts gs ++ ntokens :: expect ts gs (encoded as in 3001)
    Mirror: harness/a1h/src/lex.rs *)
@@ -34,7 +35,8 @@ Definition lex_text (m : mode) (a : list Z) : list Z :=
 
 (* ---- decoder of structured layouts (op 3003) ---- *)
 Inductive coll : Type :=
-| KNone | KSep | KText (r : list N) | KLine (crlf : bool) (r : list N) | KBlock (r : list citem).
+| KNone | KSep | KText (r : list N) | KLine (crlf : bool) (r : list N) | KBlock (r : list citem)
+| KLineD (r : list N).
 Record dst : Type := { d_ts : list ptoken; d_gs : list gap; d_g : list gitem; d_c : coll }.
 
 Definition close_coll (s : dst) : dst :=
@@ -43,6 +45,7 @@ Definition close_coll (s : dst) : dst :=
   | KText r => {| d_ts := PText (rev r) :: d_ts s; d_gs := d_gs s; d_g := d_g s; d_c := KNone |}
   | KLine b r => {| d_ts := d_ts s; d_gs := d_gs s; d_g := GLine (rev r) b :: d_g s; d_c := KNone |}
   | KBlock r => {| d_ts := d_ts s; d_gs := d_gs s; d_g := GBlock (rev r) :: d_g s; d_c := KNone |}
+  | KLineD r => {| d_ts := d_ts s; d_gs := d_gs s; d_g := GLineD (rev r) :: d_g s; d_c := KNone |}
   end.
 Definition with_coll (s : dst) (c : coll) : dst :=
   {| d_ts := d_ts s; d_gs := d_gs s; d_g := d_g s; d_c := c |}.
@@ -60,6 +63,7 @@ Definition dstep (s : dst) (z : Z) : dst :=
     | KText r => with_coll s (KText (c :: r))
     | KLine b r => with_coll s (KLine b (c :: r))
     | KBlock r => with_coll s (KBlock (CChar c :: r))
+    | KLineD r => with_coll s (KLineD (c :: r))
     end
   else
     match z with
@@ -78,6 +82,8 @@ Definition dstep (s : dst) (z : Z) : dst :=
     | -24 => with_coll (close_coll s) (KLine false [])
     | -26 => with_coll (close_coll s) (KLine true [])
     | -25 => with_coll (close_coll s) (KBlock [])
+    | -27 => push_item (close_coll s) GCr
+    | -28 => with_coll (close_coll s) (KLineD [])
     | _ => s
     end.
 
